@@ -71,7 +71,13 @@ def fcartH : Handler := fun j => do
     let idOn := match fcartLevels P c dpth cl ld ld 0 (List.replicate P.n 0) with
       | .ok x => x
       | .error _ => []
+    -- optional "idon": the implementation's own ranks `id_on_lvl`; the exact priorities they induce let the harness
+    -- recognise a float near-tie that was resolved differently (and its consequences on lower levels)
+    let idImpl ← match j.getObjVal? "idon" with
+      | .ok v => natList v
+      | .error _ => pure idOn
     pure (Json.mkObj [("pos", jPos pos), ("prios", Json.arr (finalPrios P c dpth cl ld idOn).toArray),
+      ("prios_impl", Json.arr (finalPrios P c dpth cl ld idImpl).toArray),
       ("holds", Json.bool (holdsLayout cover cl pos))])
   | .error e, _ => pure (vErr e)
   | _, .error e => pure (vErr e)
